@@ -134,6 +134,7 @@ pub fn pipe_cfg_from(p: &Value) -> Option<PipeCfg> {
         one_byte_ppm: gp("one_byte_ppm"),
         pend_ppm: gp("pend_ppm"),
         latency_us: (p["lat"][0].as_u64().unwrap_or(0), p["lat"][1].as_u64().unwrap_or(0)),
+        flush_delay_us: p["flush_delay_us"].as_u64().unwrap_or(0),
     })
 }
 
